@@ -175,6 +175,22 @@ def _once(case, acc, tree, labels):
         rest2 = list(it2)
         if head + rest1 != lines or part + rest2 != lines:
             raise Violation("overlapping-iterations", "%s: two overlapping iterations of one exporter give %r and %r instead of twice %r" % (ctx, head + rest1, part + rest2, lines))
+        # options re-assigned on the exporter while an iteration is running (to prepare the next export): the running one is
+        # finished under ONE set of predicates - those it started with, or the new ones - never node lines under one and
+        # edge lines under the other
+        if case["hide"] or case["stop"]:
+            it1 = iter(exporter)
+            head = [next(it1) for _ in range(1 + len(options) + len(declared))]
+            saved = exporter.filter_, exporter.stop
+            exporter.filter_, exporter.stop = None, None
+            try:
+                mixed = head + list(it1)
+                loosened = list(exporter)
+            finally:
+                exporter.filter_, exporter.stop = saved
+            if mixed != lines and mixed != loosened:
+                raise Violation("options-changed-mid-iteration", "%s: filter_/stop were reset after the node lines of a running iteration; it finished as %r - neither the export under the old predicates %r nor under the new ones %r" % (ctx, mixed, lines, loosened))
+            acc.tag("options_changed_during_a_running_iteration")
         known = dict(ident)
         # the same exporter after the tree has grown ...
         extra = Node("extra-first-child")
